@@ -269,6 +269,13 @@ def build(rnd, k):
         name = 'probe%d' % len(probes)
         m.add_func(wp, wr, [], body, export=name)
         probes[sig] = name
+    # duplicate type entries: the type section may list structurally identical signatures several times; a function declared with the
+    # twin index has the SAME type as far as call_indirect is concerned. (Last step: every call_indirect above names the first index.)
+    if rnd.random() < 0.5:
+        for f in m.funcs:
+            if rnd.random() < 0.3:
+                m.types.append(m.types[f.type_idx])
+                f.type_idx = len(m.types) - 1
     return m, entries, probes, slots, sigs, goff
 
 
